@@ -31,12 +31,12 @@ theorem getAck_of_not_expired (s : MSt) (now : Int) (h : expired s now = false) 
 theorem not_expired_of_none (s : MSt) (now : Int) (h : s.ack = .none) : expired s now = false := by
   simp [expired, h]
 
-theorem expired_mk (b : St) (a : Ack) (e : Int) (cm : List Cmt) (sp : Bool) (now : Int) :
-    expired ⟨b, a, e, cm, sp⟩ now = (a != .none && e != 0 && decide (e < now)) := rfl
+theorem expired_mk (b : St) (a : Ack) (e : Int) (cm : List Cmt) (sp dt : Bool) (now : Int) :
+    expired ⟨b, a, e, cm, sp, dt⟩ now = (a != .none && e != 0 && decide (e < now)) := rfl
 
-theorem getAck_mk (b : St) (a : Ack) (e : Int) (cm : List Cmt) (sp : Bool) (now : Int) :
-    getAck ⟨b, a, e, cm, sp⟩ now =
-      if (a != .none && e != 0 && decide (e < now)) then (⟨b, .none, 0, cm, sp⟩, 1) else (⟨b, a, e, cm, sp⟩, 0) := by
+theorem getAck_mk (b : St) (a : Ack) (e : Int) (cm : List Cmt) (sp dt : Bool) (now : Int) :
+    getAck ⟨b, a, e, cm, sp, dt⟩ now =
+      if (a != .none && e != 0 && decide (e < now)) then (⟨b, .none, 0, cm, sp, dt⟩, 1) else (⟨b, a, e, cm, sp, dt⟩, 0) := by
   cases h : (a != .none && e != 0 && decide (e < now))
   · rw [getAck_of_not_expired _ _ (by rw [expired_mk]; exact h)]; simp
   · rw [getAck_of_expired _ _ (by rw [expired_mk]; exact h)]; simp
@@ -65,7 +65,8 @@ theorem step_ack (c : Cfg) (s : MSt) (via : Via) (sticky notify persistent : Boo
         let e := storedExpiry via expiry
         let gone := e != 0 && decide (e < now)
         (⟨s.base, if gone then .none else ackTypeOf sticky, if gone then 0 else e,
-          if addsComment via then insertCmt ⟨now, persistent⟩ s.comments else s.comments, s.suppPending⟩,
+          if addsComment via then insertCmt ⟨now, persistent, commentExpire via expiry⟩ s.comments else s.comments,
+          s.suppPending, s.inDowntime⟩,
          { acc := true, nSet := 1, nClr := (if expired s now then 1 else 0) + (if gone then 1 else 0),
            nAckN := if notify then 1 else 0 }) := by
   cases hp : preRefuse c s via expiry now
@@ -82,12 +83,27 @@ theorem step_ack (c : Cfg) (s : MSt) (via : Via) (sticky notify persistent : Boo
 /-- Closed form of a remove-acknowledgement followed by the look. -/
 theorem step_remove (c : Cfg) (s : MSt) (via : RVia) (now : Int) :
     step c s (.remove via now) =
-      (⟨s.base, .none, 0, if via != .cluster then s.comments.filter (·.persistent) else s.comments, s.suppPending⟩,
+      (⟨s.base, .none, 0, if via != .cluster then s.comments.filter (·.persistent) else s.comments, s.suppPending,
+         s.inDowntime⟩,
        { acc := true, nClr := s.ack.ind }) := by
   cases ha : s.ack <;> simp [step, opStep, removeStep, clearAck, getAck_mk, Op.now, ha, Ack.ind]
 
 theorem step_advance (c : Cfg) (s : MSt) (now : Int) :
     step c s (.advance now) = ((getAck s now).1, { acc := true, nClr := (getAck s now).2 }) := by
+  simp [step, opStep, Op.now]
+
+/-- The comments the comment-expiry timer leaves at `now`, given whether it ran. -/
+def pumped (s : MSt) (now : Int) (fired : Bool) : MSt :=
+  { s with comments := if fired then s.comments.filter (survivesExpiry now) else s.comments }
+
+theorem step_pump (c : Cfg) (s : MSt) (now : Int) (fired : Bool) :
+    step c s (.pump now fired) =
+      ((getAck (pumped s now fired) now).1, { acc := true, nClr := (getAck (pumped s now fired) now).2 }) := by
+  simp [step, opStep, Op.now, pumped]
+
+theorem step_downtime (c : Cfg) (s : MSt) (on : Bool) (now : Int) :
+    step c s (.downtime on now) =
+      ((getAck { s with inDowntime := on } now).1, { acc := true, nClr := (getAck { s with inDowntime := on } now).2 }) := by
   simp [step, opStep, Op.now]
 
 theorem step_result_stale (c : Cfg) (s : MSt) (new : SState) (es ee now : Int)
@@ -105,9 +121,10 @@ theorem step_result (c : Cfg) (s : MSt) (new : SState) (es ee now : Int)
       let a0 := ackNow s now
       let a1 := ackAfterResult c s new now
       let send := sendNotification c s.base new
-      let stash := send && (a1 != .none || s.suppPending)
+      let stash := send && (a1 != .none || s.inDowntime || s.suppPending)
       (⟨(stepCore c s.base ⟨new, es, now⟩).1, a1, if s.ack != .none && a1 == .none then 0 else s.expiry,
-        if a1 == .none then s.comments.filter (keepsComment ee) else s.comments, s.suppPending || stash⟩,
+        if a1 == .none then s.comments.filter (keepsComment ee) else s.comments, s.suppPending || stash,
+        s.inDowntime⟩,
        { acc := true, nClr := (if expired s now then 1 else 0) + (if a0 != .none && a1 == .none then 1 else 0),
          nProbN := if send && !stash && !(isOK c.kind new && !isOK c.kind s.base.state) then 1 else 0 }) := by
   cases ha : s.ack
@@ -130,10 +147,11 @@ theorem step_result (c : Cfg) (s : MSt) (new : SState) (es ee now : Int)
 /-! ## Specification bookkeeping vs. model state -/
 
 def Rel (sp : SpecSt) (s : MSt) : Prop :=
-  sp.state = s.base.state ∧ sp.ack = s.ack ∧ (s.ack ≠ .none → sp.expiry = s.expiry) ∧ sp.comments = s.comments
+  sp.state = s.base.state ∧ sp.ack = s.ack ∧ (s.ack ≠ .none → sp.expiry = s.expiry) ∧ sp.comments = s.comments ∧
+  sp.inDt = s.inDowntime
 
 theorem ranOut_eq (sp : SpecSt) (s : MSt) (now : Int) (h : Rel sp s) : ranOut sp now = expired s now := by
-  obtain ⟨_, h2, h3, _⟩ := h
+  obtain ⟨_, h2, h3, _, _⟩ := h
   unfold ranOut expired
   rw [h2]
   by_cases ha : s.ack = .none
@@ -144,9 +162,9 @@ theorem ackAt_eq (sp : SpecSt) (s : MSt) (now : Int) (h : Rel sp s) : ackAt sp n
   simp [ackAt, ackNow, ranOut_eq sp s now h, h.2.1]
 
 theorem rel_getAck (sp : SpecSt) (s : MSt) (now : Int) (h : Rel sp s) :
-    Rel { state := s.base.state, ack := (getAck s now).1.ack, comments := s.comments,
+    Rel { state := s.base.state, ack := (getAck s now).1.ack, comments := s.comments, inDt := s.inDowntime,
           expiry := if (getAck s now).1.ack == .none then 0 else sp.expiry } (getAck s now).1 := by
-  obtain ⟨h1, h2, h3, h4⟩ := h
+  obtain ⟨h1, h2, h3, h4, h5⟩ := h
   cases he : expired s now
   · simp [getAck_of_not_expired, he, Rel]
     intro ha; simp [ha, h3 ha]
@@ -159,7 +177,8 @@ theorem getAck_cnt (s : MSt) (now : Int) : (getAck s now).2 = if expired s now t
   cases he : expired s now <;> simp [getAck_of_not_expired, getAck_of_expired, he]
 
 theorem getAck_rest (s : MSt) (now : Int) :
-    (getAck s now).1.base = s.base ∧ (getAck s now).1.comments = s.comments := by
+    (getAck s now).1.base = s.base ∧ (getAck s now).1.comments = s.comments ∧
+    (getAck s now).1.inDowntime = s.inDowntime := by
   cases he : expired s now <;> simp [getAck_of_not_expired, getAck_of_expired, he]
 
 theorem spec_step_advance (c : Cfg) (sp : SpecSt) (s : MSt) (now : Int) (h : Rel sp s) :
